@@ -1,10 +1,10 @@
 CONSTANTS
-Mode = "opcodes"
-MaxItems = 2
+Mode = "pool"
+MaxItems = 5
 Vals = {0, 1, 127, 128, 255, 256, 16383, 16384, 2097151, 2097152, 268435455, 268435456, 2147483647}
-Pads = {1}
-MaxPads = 0
-MaxLabels = 0
+Pads = {1, 128}
+MaxPads = 1
+MaxLabels = 2
 PoolMax = 16384
 INIT Init
 NEXT Next
